@@ -109,6 +109,35 @@ class SeqKind:
         return [arr[:, :, k] for k in range(arr.shape[2])]
 
 
+VAR_DATA = {1: [[1.0, 0.5], [0.2, -0.4], [0.9, 0.1], [-0.3, 0.8], [0.6, -0.2], [0.1, 0.7], [-0.5, 0.3], [0.4, 0.0]],
+            2: [[0.0, 1.0], [0.7, 0.3], [-0.2, 0.9], [0.5, -0.6], [0.3, 0.4], [-0.8, 0.2], [0.6, 0.5], [0.1, -0.3]],
+            3: [[2.0, -1.0], [1.5, 0.2], [0.4, 0.8], [1.1, -0.7], [-0.6, 0.3], [0.9, 0.9], [0.2, -0.1], [1.3, 0.6]]}
+VAR_START = ir.qq(2020, 1)
+VAR_SPAN = ir.Span(ir.qq(2020, 2), ir.qq(2021, 4))
+
+
+class VarKind:
+    """RedVAR: the abstract parameter g of a variant is the data set it was estimated on; assign = (re-)estimate."""
+    name = "var"
+
+    def fresh(self):
+        return ir.RedVAR(["y1", "y2"], order=1)
+
+    def assign(self, m, values_per_variant, name):
+        if name != "g":
+            return
+        db = ir.Databox()
+        for j, n in enumerate(("y1", "y2")):
+            db[n] = ir.Series(start=VAR_START, values=np.array([[VAR_DATA[v][t][j] for v in values_per_variant] for t in range(8)], dtype=float))
+        m.estimate(db, VAR_SPAN, num_variants=len(values_per_variant))
+
+    def simulate_obs(self, m):
+        out = []
+        for s in m.get_system_matrices(unpack_singleton=False):
+            out.append(np.concatenate([np.asarray(s.A, dtype=float).ravel(), np.asarray(s.c, dtype=float).ravel(), np.asarray(s.cov_residuals, dtype=float).ravel()]))
+        return out
+
+
 def dup(m, how, tmpdir, step):
     if how == "copy":
         return m.copy()
@@ -180,11 +209,17 @@ def compare_all(chk, kind, refs, models, st, where, payload, opname):
             if kind.name == "sim":
                 sobs = kind.steady_obs(m)
                 lobs = kind.solution_obs(m)
-            consistent = all((kind.name == "seq") or (not isinstance(v["so"], tlaval.MV) and v["so"] == v["st"] == v["p"]) for v in variants)
+            consistent = all((kind.name in ("seq", "var")) or (not isinstance(v["so"], tlaval.MV) and v["so"] == v["st"] == v["p"]) for v in variants)
             simobs = kind.simulate_obs(m) if consistent else None
         except Exception as ex:
             chk.mismatch("model:%s:%s:observe:%s:%s" % (kind.name, opname, role, type(ex).__name__), where + ": observing %s raised %r" % (h, ex), payload)
             return False
+        if kind.name == "var":
+            for i, v in enumerate(variants):
+                if simobs is not None and not close(simobs[i], refs.get(v["p"])["simulate"], 1e-8):
+                    chk.mismatch("model:var:%s:estimates:%s" % (opname, role), where + ": system matrices of %s variant %d differ from a singleton RedVAR estimated on data set %d" % (h, i, v["p"][0]), payload)
+                    return False
+            continue
         # variant k obtained by iterating over the model / by indexing is the singleton model of variant k's parameters
         try:
             items = list(m)
@@ -294,7 +329,7 @@ def portable_roundtrip(chk, kind):
 def run(chk):
     thorough = chk.tier == "thorough"
     tmpdir = chk.scratch.sub("pk")
-    for kind in (SimKind(), SeqKind()):
+    for kind in (SimKind(), SeqKind(), VarKind()):
         refs = Refs(kind)
         simdir = chk.scratch.sub("sim_" + kind.name)
         per_worker = (150 if thorough else 40) if kind.name == "sim" else (60 if thorough else 15)
@@ -323,10 +358,11 @@ def run(chk):
             raise MachineryError("ModelObjects/%s: actions never exercised: %s" % (kind.name, sorted(need - set(count))))
         chk.replayed += len(files)
         chk.notes["actions_replayed_" + kind.name] = count
-        portable_roundtrip(chk, kind)
+        if kind.name != "var":
+            portable_roundtrip(chk, kind)
     chk.rule = ("simulated behaviours of ModelObjects (depth 14, three handles, <= 3 variants, 2 parameters x 3 values; assign to one/all variants, "
                 "steady, solve, alter_num_variants, copy / pickle / dill / save-load) on a Simultaneous growth model with log-variables and on a "
-                "Sequential model; after every step all variants of all handles are compared with fresh single-variant references; a case is one behaviour")
+                "Sequential model, and (parameter = data set estimated on) on a RedVAR; after every step all variants of all handles are compared with fresh single-variant references; a case is one behaviour")
     chk.assumptions = ["model[k] / get_variant views share variant objects by design and are not used as copies",
                        "RedVAR objects are not driven through the state machine (only Simultaneous and Sequential)"]
 
